@@ -35,11 +35,33 @@ def model_batch(lines):
 def req_line(cmd, opts, s):
     return '%s\t%s\t%s' % (cmd, canon.opts_str(**opts), canon.enc_input(s) or '-')
 
-def impl_run(cmd, opts, s):
+# wall-clock budget of one call of the implementation.  The unchanged library answers every generated
+# input in well under a second; the budget only has to survive a loaded machine.  A change that makes
+# calls hang must not make the check itself hang: after BREAKER budgets were exhausted in one worker the
+# remaining calls of that worker get SHORT_TIMEOUT (every timeout is re-confirmed alone afterwards).
+CALL_TIMEOUT = int(os.environ.get('VERIF_CALL_TIMEOUT', '20'))
+SHORT_TIMEOUT = 2
+BREAKER = 4
+MEM_LIMIT = 6 << 30     # address-space cap while the implementation runs (a hang that allocates)
+_timeouts_seen = 0
+
+def impl_run(cmd, opts, s, timeout=None):
+    global _timeouts_seen
+    import resource
     bl = get_bashlex()
     tab = bl.tokenizer.sh_syntaxtab
     before = set(tab.keys())
-    out = canon.run(bl, cmd, s, **(opts if cmd != 'split' else {}))
+    if timeout is None:
+        timeout = CALL_TIMEOUT if _timeouts_seen < BREAKER else SHORT_TIMEOUT
+    soft, hard = resource.getrlimit(resource.RLIMIT_AS)
+    try:
+        try: resource.setrlimit(resource.RLIMIT_AS, (MEM_LIMIT if hard == resource.RLIM_INFINITY else min(MEM_LIMIT, hard), hard))
+        except (ValueError, OSError): pass
+        out = canon.run(bl, cmd, s, timeout=timeout, **(opts if cmd != 'split' else {}))
+    finally:
+        try: resource.setrlimit(resource.RLIMIT_AS, (soft, hard))
+        except (ValueError, OSError): pass
+    if out.startswith('EXN FUEL'): _timeouts_seen += 1
     new = sorted(set(tab.keys()) - before)
     for k in new: del tab[k]
     touched = '.'.join('%x' % ord(c) for c in sorted(new))
@@ -77,6 +99,15 @@ def run_all(requests, nproc=None, chunk=500):
         for c, res in zip(chunks(reqs, chunk), pool.imap(_work, chunks(reqs, chunk))):
             for r, x in zip(c, res):
                 yield (r,) + x
+
+def _confirm(req_timeout):
+    (cmd, opts, s), timeout = req_timeout
+    return canon.norm_outcome(impl_run(cmd, opts, s, timeout=timeout)[0])
+
+def confirm_alone(req, timeout=120):
+    """re-run one request in a fresh process with nothing else of ours running: the outcome line"""
+    with mp.Pool(1) as pool:
+        return pool.apply(_confirm, ((req, timeout),))
 
 def outcome_class(line):
     if line.startswith('OK '): return 'ok' if line != 'OK []' else 'ok-empty'
